@@ -98,6 +98,7 @@ class Engine(OpsMixin, ExprMixin, CallMixin, StmtMixin, BuiltinsMixin):
         self.truth_hooks = {}
         self.subscript_models = {}
         self.binop_models = {}
+        self.ufun_rewrites = {}
         self.coerce_hooks = {}
         self.binder_depth = 0
         self._bcount = 0
